@@ -2,6 +2,7 @@ package vrt
 
 import (
 	"reflect"
+	"sync/atomic"
 )
 
 // Case is one arm of a rewritten select.
@@ -20,9 +21,59 @@ func S[T any](ch chan<- T, v T) Case {
 type mail struct {
 	val   reflect.Value
 	taken bool
+	hb    int32
 }
 
-var mailbox = map[uintptr]*mail{}
+// ptrTable is a tiny pointer-keyed table (linear search; no map: map operations are instrumented by the race
+// detector even inside //go:norace functions, and the scheduler's state must stay invisible to it).
+type ptrEntry struct {
+	p uintptr
+	m *mail
+	c bool
+}
+
+type ptrTable []ptrEntry
+
+//go:norace
+func (t ptrTable) get(p uintptr) *ptrEntry {
+	for i := range t {
+		if t[i].p == p {
+			return &t[i]
+		}
+	}
+	return nil
+}
+
+//go:norace
+func (t *ptrTable) at(p uintptr) *ptrEntry {
+	if e := t.get(p); e != nil {
+		return e
+	}
+	*t = append(*t, ptrEntry{p: p})
+	return &(*t)[len(*t)-1]
+}
+
+var chanTab ptrTable
+
+//go:norace
+func mailOf(p uintptr) *mail {
+	if e := chanTab.get(p); e != nil {
+		return e.m
+	}
+	return nil
+}
+
+//go:norace
+func setMail(p uintptr, m *mail) { chanTab.at(p).m = m }
+
+//go:norace
+func closedOf(p uintptr) bool {
+	e := chanTab.get(p)
+	return e != nil && e.c
+}
+
+//go:norace
+func setClosed(p uintptr) { chanTab.at(p).c = true }
 
 //go:norace
 func recvReady(ch reflect.Value) bool {
@@ -32,14 +83,13 @@ func recvReady(ch reflect.Value) bool {
 	if ch.Len() > 0 {
 		return true
 	}
-	if m := mailbox[ch.Pointer()]; m != nil && !m.taken {
+	if m := mailOf(ch.Pointer()); m != nil && !m.taken {
 		return true
 	}
 	return isClosed(ch)
 }
 
 // closedSet remembers channels known to be closed (closed through vrt.Close or observed closed).
-var closedSet = map[uintptr]bool{}
 
 // pinned keeps every channel recorded in closedSet/mailbox reachable until the execution ends: the tables are
 // keyed by address, and the address of a collected channel could otherwise be handed to a NEW channel of the
@@ -53,7 +103,7 @@ func pin(ch reflect.Value) { pinned = append(pinned, ch) }
 //go:norace
 func isClosed(ch reflect.Value) bool {
 	p := ch.Pointer()
-	if closedSet[p] {
+	if closedOf(p) {
 		return true
 	}
 	if ch.Type().ChanDir()&reflect.RecvDir == 0 {
@@ -65,7 +115,7 @@ func isClosed(ch reflect.Value) bool {
 	// non-destructive probe: a receive from an empty open channel would block; from a closed one it yields (zero,false)
 	x, ok := ch.TryRecv()
 	if x.IsValid() && !ok {
-		closedSet[p] = true
+		setClosed(p)
 		pin(ch)
 		return true
 	}
@@ -80,13 +130,13 @@ func sendReady(ch reflect.Value) bool {
 	if !ch.IsValid() || ch.IsNil() {
 		return false
 	}
-	if closedSet[ch.Pointer()] {
+	if closedOf(ch.Pointer()) {
 		return true // will panic, as in Go
 	}
 	if ch.Cap() > 0 {
 		return ch.Len() < ch.Cap()
 	}
-	m := mailbox[ch.Pointer()]
+	m := mailOf(ch.Pointer())
 	return m == nil || m.taken
 }
 
@@ -121,9 +171,14 @@ func doRecv(ch reflect.Value) (reflect.Value, bool) {
 		x, ok := ch.TryRecv()
 		return x, ok
 	}
-	if m := mailbox[ch.Pointer()]; m != nil && !m.taken {
+	if m := mailOf(ch.Pointer()); m != nil && !m.taken {
 		m.taken = true
+		atomic.LoadInt32(&m.hb) // acquire: pairs with the sender's release (a rendezvous is a happens-before edge)
 		return m.val, true
+	}
+	// closed: perform the real receive as well, so that the race detector sees the close -> receive edge
+	if ch.Type().ChanDir()&reflect.RecvDir != 0 {
+		ch.TryRecv()
 	}
 	return reflect.Zero(ch.Type().Elem()), false // closed
 }
@@ -135,7 +190,7 @@ func (w *mailWait) VrtReady(int) bool { return w.m.taken }
 
 //go:norace
 func doSend(ch reflect.Value, v reflect.Value) {
-	if closedSet[ch.Pointer()] {
+	if closedOf(ch.Pointer()) {
 		panic("send on closed channel")
 	}
 	if ch.Cap() > 0 {
@@ -145,11 +200,12 @@ func doSend(ch reflect.Value, v reflect.Value) {
 		return
 	}
 	m := &mail{val: v}
-	mailbox[ch.Pointer()] = m
+	atomic.AddInt32(&m.hb, 1) // release
+	setMail(ch.Pointer(), m)
 	pin(ch)
 	Sched(KSend, &mailWait{m}, "chan.send.rendezvous")
-	if mailbox[ch.Pointer()] == m {
-		delete(mailbox, ch.Pointer())
+	if mailOf(ch.Pointer()) == m {
+		setMail(ch.Pointer(), nil)
 	}
 }
 
@@ -284,7 +340,7 @@ func Send[T any](ch chan<- T, v T) {
 func Close[T any](ch chan<- T) {
 	if Managed() {
 		Sched(KYield, nil, "close")
-		closedSet[reflect.ValueOf(ch).Pointer()] = true
+		setClosed(reflect.ValueOf(ch).Pointer())
 		pin(reflect.ValueOf(ch))
 	}
 	close(ch)
@@ -292,7 +348,6 @@ func Close[T any](ch chan<- T) {
 
 //go:norace
 func resetChans() {
-	mailbox = map[uintptr]*mail{}
-	closedSet = map[uintptr]bool{}
+	chanTab = chanTab[:0]
 	pinned = nil
 }
